@@ -67,8 +67,9 @@ def encPResponse (pr : PartialResponse) : String :=
     (pr.falsePermits ++ pr.falseForbids).map (fun x => (x.1, if x.2 then "error" else "false")) ++
     (pr.residualPermits ++ pr.residualForbids).map (fun x => (x.1, "residual"))
   let items := sortStrings (cls.map (fun (id, c) => "(" ++ (Sexp.str id).toString ++ " " ++ c ++ ")"))
-  "(presp " ++ encDecision? pr.decision ++ " (cls" ++ String.join (items.map (" " ++ ·)) ++ ") (may " ++
-    encIds pr.mayBeDetermining ++ ") (must " ++ encIds pr.mustBeDetermining ++ "))"
+  "(presp " ++ encDecision? pr.decision ++ " (cls" ++ String.join (items.map (" " ++ ·)) ++
+    (if pr.mayPanics then ") (construct-policy-panic))" else
+      ") (may " ++ encIds pr.mayBeDetermining ++ ") (must " ++ encIds pr.mustBeDetermining ++ "))")
 
 def handlePartial (x : Sexp) : Option String :=
   match x with
@@ -82,8 +83,18 @@ def handlePartial (x : Sexp) : Option String :=
       match (isAuthorizedCore [] req ents ps).reauthorize m ents' with
       | .ok pr2 => some ("(reauth " ++ encPResponse pr2 ++ ")")
       | .error .concretization => some "(reauth-err concretization)"
+      | .error .panic => some "(reauth-panic)"
       | .error .stuck => some "(reauth-err stuck)"
     | _, _, _, _, _ => some "(bad-op)"
+  | .list [.atom "reauth2", req, ents, ents', ps, sub, sub2] =>
+    match decPRequest req, decPEntities ents, decPEntities ents', decPolicies ps, decSubst sub, decSubst sub2 with
+    | some req, some ents, some ents', some ps, some m, some m2 =>
+      match ((isAuthorizedCore [] req ents ps).reauthorize m ents').bind (fun pr2 => pr2.reauthorize m2 ents') with
+      | .ok pr3 => some ("(reauth " ++ encPResponse pr3 ++ ")")
+      | .error .concretization => some "(reauth-err concretization)"
+      | .error .panic => some "(reauth-panic)"
+      | .error .stuck => some "(reauth-err stuck)"
+    | _, _, _, _, _, _ => some "(bad-op)"
   | _ => none
 
 end CedarVerif.Ops
